@@ -546,6 +546,7 @@ func checkC14(c *Ctx) {
 	ruleMinLen(c, "C14")
 	ruleLECount(c)
 	ruleWindowSearch(c)
+	ruleEOFBreak(c)
 	_ = ssa.Function{}
 }
 
